@@ -46,3 +46,17 @@ def canon(lines):
         return m[k]
 
     return [UNSTABLE.sub(r, l) for l in lines]
+
+
+def token_alignment(py_lines, lean_lines):
+    """map the unstable tokens of the Lean printout to the names the real code used, by order of
+    first occurrence (the same order the canonical renaming relies on)"""
+    def order(lines):
+        seen = []
+        for l in lines:
+            for m in UNSTABLE.findall(l):
+                if m not in seen:
+                    seen.append(m)
+        return seen
+    a, b = order(lean_lines), order(py_lines)
+    return dict(zip(a, b))
